@@ -46,6 +46,7 @@ mod vk_iter {
         let mut items = 0usize;
         let mut ended = false;
         let mut flag_true_seen = false;
+        let mut passed_seen = false;   // saw `yielded` beyond the ticket
         let mut i = 1;
         while i < LOGN {
             if i < s.n {
@@ -58,6 +59,7 @@ mod vk_iter {
                     }
                 }
                 if e.loc == 3 && e.kind == 5 && e.ret == 1 { flag_true_seen = true; }
+                if e.loc == 2 && e.kind == 2 && e.ret > b { passed_seen = true; }
                 if e.loc == 9 {
                     assert!(admitted && !published, "[C07 C01 iter-exclusive] the wrapped iterator is used only between admission (yielded == ticket) and publication");
                 }
@@ -78,6 +80,9 @@ mod vk_iter {
                 }
             }
             i += 1;
+        }
+        if !admitted {
+            assert!(flag_true_seen || passed_seen, "[C09 C05 C06 iter-give-up] a pull gives up its reservation only after it observed `completed` or `yielded` beyond its ticket (otherwise later tickets wait for it forever)");
         }
         if admitted && !flag_true_seen {
             assert!(published, "[C09 iter-progress] a ticket holder that returns has advanced `yielded` by its reservation or set `completed`");
